@@ -25,6 +25,10 @@ CLAIMS = {
         text="Lean theorems at full strength (after the repair of bug 686): equal = JSON data-model equality at every depth for well-formed values (equal_is_jsonEq), const/enum/uniqueItems specifications (const_spec, enum_spec, uniq_spec on both code paths, uniqueItems_spec), the three keywords agree (three_agree), jsonEq is reflexive and symmetric. Tie: EQ channel on twisted pairs and arrays; monitor uses Spec.jsonEq from the driver as oracle through real single-keyword schemas in four drafts.",
         note=TB + "Well-formedness (distinct object keys) is a hypothesis, satisfied by json.loads output.",
         ref="6 C08", tech="Lean 4 proof (mutual induction on JSON values) + differential correspondence + specification oracle"),
+    "C09": dict(
+        text="Lean theorems: Num.lt/le/eq decide the order of exact rational values (lt_exact, le_exact, eq_exact), so minimum/maximum/exclusive* in both encodings are exact for any mixture of big integers and floats (bounds_exact_d67, bounds_exact_d34, bounds_ignore_non_numbers); multipleOf is exact divisibility for integers of any size (multipleOf_int), never raises for a non-zero divisor (multipleOf_never_raises, kwMultipleOf_total), the Fraction fallback is exact (exactMultiple_spec), exactDouble? recognises exactly the binary64 values (exactDouble_spec), and on the exact sub-domain the float paths decide exact divisibility incl. overflowing quotients (multipleOf_float_divisor_exact, multipleOf_int_divisor_exact). Tie: NUM channel on number pairs (4000-digit integers, whole float exponent range, 2^53 neighbourhood, subnormals) through real single-keyword schemas in four drafts; exact rational oracle from the driver cross-checked with fractions.Fraction.",
+        note=TB + "A-float: IEEE-754 binary64 with round-half-even for / and int->float; the rounding branch (roundInexact) is validated by correspondence only, the theorems use the exactly-representable branch.",
+        ref="6 C09", tech="Lean 4 proof (exact dyadic arithmetic against Rat) + differential correspondence + rational oracle"),
     "C14": dict(
         text="Lean theorem resolve_eq_spec: for every document, token list and percent-encoder, resolve_fragment of the encoded pointer equals RFC 6901 evaluation (value or failure), with corollaries positive/negative/empty_fragment/array_token_spec/scalar_token_spec and the round trips unescape_escape, unquote_pctEncode (UTF-8 via Lean core). Tie: PTR channel on every path of generated documents under five encoders, mutated tokens, arbitrary fragment strings; independent Python oracle walks the document.",
         note=TB + "The replacing UTF-8 decoder (errors='replace') is modelled and tied by correspondence only; theorems use the strict branch.",
